@@ -1,5 +1,6 @@
 import Nstd.Common.Basic
 import Nstd.Life.Model
+import Nstd.Generated.LifeConst
 /-
   Line protocol of the Life area (same op lines as harness/life.cpp).
   argv[1] = C04:  `<K> <var0> | <var1> # c= d= live= u= dd= ov= b= t= # <events of this op>`
@@ -70,7 +71,16 @@ def DState.absorb (ds : DState) (st : State) : DState :=
     b := ds.b + count (fun e => match e with | .alloc .. => true | _ => false) st.log
           - count (fun e => match e with | .free .. => true | _ => false) st.log }
 
-def dinit : DState := (DState.absorb ⟨empty, 0, 0, 0⟩ init)
+/-- items per block as the translator found them in the current sources (allocation size and free-list threading loop agree;
+    a value of 0 does not type-check: the tie is broken) -/
+def genPer : Per :=
+  ⟨fun k => match k with
+    | .A => 1 | .L => Nstd.Generated.Life.listItems | .M => Nstd.Generated.Life.mapItems | .U => Nstd.Generated.Life.multiMapItems
+    | .H => Nstd.Generated.Life.hashMapItems | .S => Nstd.Generated.Life.hashSetItems
+    | .P => Nstd.Generated.Life.poolListItems | .Q => Nstd.Generated.Life.poolMapItems,
+   fun k => by cases k <;> decide⟩
+
+def dinit : DState := (DState.absorb ⟨empty genPer, 0, 0, 0⟩ (init genPer))
 
 def counters (ds : DState) (c05 : Bool) (log : List Ev) : String :=
   if c05 then
